@@ -48,3 +48,15 @@ Example C13_example :
   = [(0x2010, 0x4, 0x2, 100); (0x1020, 0, 0, 65535)]%Z /\
   outconf_marshal [(0x2010, 0x4, 0x2, 100)]%Z = [0x20; 0x16; 0x00; 0x64] /\ setting_ok (0x2010, 0x4, 0x2, 100)%Z.
 Proof. unfold setting_ok. repeat split; vm_compute; try reflexivity; discriminate. Qed.
+
+(* The model IS the code: OutputConfiguration.Unmarshal as REGENERATED statement by statement from outputconfiguration.go
+   on this run (Gen/ConfFns.v: a configuration value = its backing array up to the capacity + its length; reslice when the
+   capacity suffices, otherwise append to the full-capacity slice; the counting loop; SetUint16 and the frequency store on
+   the element in place) yields exactly outconf_unmarshal - for every destination (contents, length, capacity) and
+   every payload *)
+Require Import Base.GoBytes Base.GoConf Gen.ConfFns Tie.ConfAgree.
+Theorem C13_unmarshal_model_is_the_source : forall bk n data, wf_bytes data -> (0 <= n <= Z.of_nat (length bk))%Z ->
+  exists o', g_OutputConfiguration_Unmarshal (bk, n) data = Val (None, o') /\
+             firstn (Z.to_nat (snd o')) (fst o') = outconf_unmarshal bk data.
+Proof. exact unmarshal_conf_agrees. Qed.
+Print Assumptions C13_unmarshal_model_is_the_source.
